@@ -865,6 +865,18 @@ def run_rnd(case, ctx):
                 w.update({"portion": [i0, i1], "parts_order": parts})
                 break
         cls.append("history_portions")
+    if w is None and T >= 3 and int(sig[8:12], 16) % 4 == 0 and not wide:
+        # derived observations: a closed circuit -- the track's last observation is a copy() of its first
+        # (Track.loop(add=True)); the observed symbol of the last epoch is then written on it
+        circ = gen.make_track([(float(case["obs"][k]), float(k), 0.0) for k in range(T - 1)])
+        circ.createAnalyticalFeature("sym", [float(v) for v in case["obs"][:T - 1]])
+        r_ = M.call(circ.loop, True)
+        if not M.is_raised(r_) and circ.size() == T:
+            M.call(circ.setObsAnalyticalFeature, "sym", T - 1, float(case["obs"][T - 1]))
+            o4 = decode_on_track(mdl, circ, False)
+            ctx.monitor("closed_circuit_last_is_a_copy_of_first")
+            w = judge(mdl, o4, p, q, best, ctx, "a closed circuit (the last observation is a copy() of the first)")
+            cls.append("closed_circuit")
     if w is not None:
         w.update({"sequences": nseq, "optimal_sequences": nbest, "counts": counts,
                   "diag_tie_cells": t, "diag_backpointer_not_argmin_cells": b,
@@ -904,7 +916,7 @@ def classify(case, witness):
 # floors for the call-history workloads added in session 3 (a run in which they were silently skipped is inconclusive)
 _floors_base = floors
 _FLOORS_EXTRA = {'classes': {'history_rerun': 500, 'more_than_64_candidates_per_epoch': 12,
-                             'candidates_returned_as_tuple': 100, 'one_candidate_list_object_for_every_epoch': 200, 'candidates_returned_as_ndarray': 100}}
+                             'candidates_returned_as_tuple': 100, 'closed_circuit': 300, 'one_candidate_list_object_for_every_epoch': 200, 'candidates_returned_as_ndarray': 100}}
 
 
 def floors(tier):
